@@ -4,7 +4,7 @@
 use crate::fw::{Ctx, Plan, Prop, Tier, panic_site, sec};
 use crate::gen_prog::{Mode, gen_program};
 use crate::hast::H;
-use crate::perturb::perturb;
+use crate::perturb::perturb_or_edit as perturb;
 use crate::pipe::{Front, Obs, Opts, observe};
 use crate::printer::{Style, print};
 use crate::typed::{C03Verdict, D3_KEY, NBE_FUEL, SourceVerdict, d3_applicable, front_name, has_source_holes, judge_elaborated, judge_source, rules_of};
